@@ -85,6 +85,28 @@ func c16Gen(g *core.Gen) {
 		}
 		_ = s
 	}
+	// duplicates x displacement: a slice repeated inside a file / a whole file stored twice, with bytes inserted or cut
+	// at every offset of the (second) copy - hits on already located slices must not end the search for the others
+	for _, s := range []int{4, 8} {
+		for _, cfg := range []scen.P2Config{
+			{Sizes: []int{6*s + 1, 2 * s}, Slice: s, Blocks: 7, Class: "dupslice"},
+			{Sizes: []int{5*s + 3, s}, Slice: s, Blocks: 7, Class: "repslice"},
+			{Sizes: []int{5 * s}, Slice: s, Blocks: 7, Class: "repslice"},
+			{Sizes: []int{3 * s, 3 * s, 2*s + 1}, Slice: s, Blocks: 7, Class: "uniq", DupFile: true},
+		} {
+			for f := 0; f < 2 && f < len(cfg.Sizes); f++ {
+				n := cfg.Sizes[f]
+				for p := 0; p <= n; p++ {
+					for _, L := range []int{1, s} {
+						g.Emit(&p2Case{Cfg: cfg, Dmg: []scen.Dmg{{Op: "ins", F: f, At: p, N: L}}, G: 1, AutoPrune: true, Extra: []string{"c16"}})
+						if p+L <= n && L < n {
+							g.Emit(&p2Case{Cfg: cfg, Dmg: []scen.Dmg{{Op: "cut", F: f, At: p, N: L}}, G: 1, AutoPrune: true, Extra: []string{"c16"}})
+						}
+					}
+				}
+			}
+		}
+	}
 	// exactly 256 pairwise different slices whose CRC-32s agree in their low 16 bits (any 8- or 16-bit counter over
 	// checksum prefixes wraps exactly there), reached while sliding: bytes inserted / deleted in front of them
 	for _, n := range []int{258, 300} {
